@@ -103,8 +103,8 @@ PROPS = {
     },
     'C04': {
         'level': 'proof',
-        'level_text': 'Verus proves rule::parse/check/parse_without_ignore/check_without_ignore (verbatim bodies minus tracker) for every rule node type S and skip type IGN: success iff S matches a prefix and the position after IGN (none for the atomic pair) is the end of input; check == parse.is_some(). On rustc's expansion of the rule-kind macros over abstract inner/skip nodes it proves that impl_parse! selects the non-skipping pair exactly for atomic, compound-atomic and EOI rules, and that ParsableTypedNode::try_parse / try_check / try_parse_partial / try_check_partial start from a fresh empty stack and return Ok exactly when the rule's full (resp. prefix) match holds.',
-        'level_note': NOTE_COMMON + 'TypedParser::{try_parse,try_check} (one-line delegations) and 'the tree returned is the one the prefix parse returns' are covered only by the bounded differential enumeration.',
+        'level_text': 'Verus proves rule::parse/check/parse_without_ignore/check_without_ignore (verbatim bodies minus tracker) for every rule node type S and skip type IGN: success iff S matches a prefix and the position after IGN (none for the atomic pair) is the end of input; check == parse.is_some(). On the expansion by rustc of the rule-kind macros over abstract inner/skip nodes it proves that impl_parse! selects the non-skipping pair exactly for atomic, compound-atomic and EOI rules, and that ParsableTypedNode::try_parse / try_check / try_parse_partial / try_check_partial start from a fresh empty stack and return Ok exactly when the full (resp. prefix) match of the rule holds.',
+        'level_note': NOTE_COMMON + 'TypedParser::{try_parse,try_check} (one-line delegations) and "the tree returned is the one the prefix parse returns" are covered only by the bounded differential enumeration.',
         'technique': TECH,
         'verus': ['wrappers', 'rules'],
         'expanded': True,
